@@ -599,8 +599,10 @@ pub fn gen_c16_yuv(sh: &mut Shards, o: &Opts) -> u64 {
         }
         let px: Vec<[u16; 3]> = ys.iter().map(|&y| [y, mid, mid]).collect();
         evals += px.len() as u64;
-        for (at, w, h) in cut_images(px.len(), ci + 5) {
+        for (j, (at, w, h)) in cut_images(px.len(), ci + 5).into_iter().enumerate() {
             let img = &px[at..at + w * h];
+            // the labels the matrix stage ignores rotate from image to image
+            let c = Cfg { tc: crate::util::TC_SUP[(ci + j) % 14], cp: crate::util::CP_SUP[(ci + 3 * j) % 11], ..c };
             if st == 8 {
                 emit_dec::<u8>(sh, &c, st, img, w, h, "grey");
             } else {
